@@ -222,6 +222,8 @@ func drive(args []string) int {
 					hangs += forcedConcurrentFirstEnqueue(enc, gate, q, b)
 					n++
 				}
+				hangs += forcedSlowFlush(enc, gate, q, b+1)
+				n++
 			}
 		}
 		hangs += gomaxprocs1(enc)
@@ -299,6 +301,28 @@ func forcedConcurrentFirstEnqueue(enc *json.Encoder, gate *sched.Gate, q, b int)
 	case <-time.After(2 * time.Second):
 	}
 	time.Sleep(20 * time.Millisecond)
+	r.goThread(3, func() { r.stop(3) })
+	return r.finish(enc, 3*time.Second)
+}
+
+// forcedSlowFlush: a Flush is being carried out (the writer is held inside BatchWriteDone of the flushed object) for several
+// batch time-outs; afterwards one more object is enqueued (a partial batch, no Flush): the time-out has to write it, and Stop
+// has to return.
+func forcedSlowFlush(enc *json.Encoder, gate *sched.Gate, q, b int) int {
+	r := newRun(q, b, 5*time.Millisecond, 2)
+	for _, o := range r.objs {
+		o.gate = gate
+	}
+	gate.Hold("cb:done")
+	r.goThread(1, func() { r.enqueue(1, 1); r.bw.Flush() })
+	for i := 0; i < 400 && gate.Parked("cb:done") == 0; i++ {
+		time.Sleep(time.Millisecond)
+	}
+	time.Sleep(20 * time.Millisecond) // four batch time-outs go by inside the flush
+	gate.ReleaseAll()
+	time.Sleep(10 * time.Millisecond)
+	r.goThread(2, func() { r.enqueue(2, 2) })
+	time.Sleep(50 * time.Millisecond) // ten batch time-outs: the partial batch is due
 	r.goThread(3, func() { r.stop(3) })
 	return r.finish(enc, 3*time.Second)
 }
